@@ -242,7 +242,7 @@ def report(mod, prop, tier, seed, cases, records, dead, wall):
     print(f"[{prop}] observed: {dict(obs)}")
     print(f"[{prop}] monitors: {dict(mon)}")
     for f in findings:
-        if f.get("status") == "open" and f.get("property") == prop and known.get(f["key"]):
+        if f.get("status") == "open" and prop in ([f.get("property")] + list(f.get("also_properties", []))) and known.get(f["key"]):
             print(f"KNOWN-FINDING: property={prop} {f['key']}: {f['what']} ({known[f['key']]} cases)")
     for path, v in lines:
         print(f"VIOLATION property={prop} replay={path}  # {v['vclass']}: {v['detail'][:200]}")
